@@ -198,7 +198,9 @@ C09ok(E, tags, q) ==
 SubEnd(E, u) == LET ps == { p \in Pos(E) : (E[p].ev = "cbend" /\ E[p].u = u /\ E[p].k \in {"e", "c"}) \/ (E[p].ev = "unsubret" /\ E[p].u = u) }
                 IN IF ps = {} THEN 0 ELSE CHOOSE p \in ps : \A r \in ps : p <= r
 C15ok(E, tags, q, period) ==
-  HasTag(tags, "workers") =>
+  \* a program that creates and finishes subscriptions repeatedly does not accumulate threads: all of them are gone at the end
+  /\ (HasTag(tags, "workers-repeat") => q.fin = "ok")
+  /\ HasTag(tags, "workers") =>
     LET e == SubEnd(E, 1) IN
     e # 0 =>
       /\ q.fin = "ok"                                                                 \* every thread started for the subscription has exited
@@ -250,5 +252,7 @@ Judge(E, tags, q) ==
    C08 |-> IF ~(HasTag(tags, "queue") \/ HasTag(tags, "default_queue")) \/ C08ok(E, tags, q) THEN "ok" ELSE "bad",
    C19 |-> IF C19ok(E) THEN "ok" ELSE "bad", C05 |-> IF C05ok(E) THEN "ok" ELSE "bad",
    C11 |-> IF C11ok(E, tags, fin) THEN "ok" ELSE "bad", C12 |-> IF C12ok(E, tags, fin) THEN "ok" ELSE "bad",
-   C07 |-> IF fin = "ok" \/ (HasTag(tags, "queue") /\ fin = "stuck" /\ q.nblocked = q.nparked) THEN "ok" ELSE "bad"]
+   \* C07: every call returned and every thread finished, or the only threads left are parked on a condition variable (an idle
+   \* scheduler worker waiting for work; whether it should have exited is C15's question, whether work was lost C08's / C18's)
+   C07 |-> IF fin = "ok" \/ (fin = "stuck" /\ q.nblocked = q.nparked) THEN "ok" ELSE "bad"]
 =============================================================================
